@@ -43,17 +43,17 @@ def make_het(link, A):
     return getattr(ac, HET[link])(M=A["M"], b=A["bv"], A=A["A"], W=A["W"])
 
 
-def feature_moments_case(model, Dx, Dk, Dy, semi=(), timeout=900):
-    cid = f"C16/moments/{model}/Dx{Dx}Dk{Dk}Dy{Dy}" + ("/semi-" + "-".join(semi) if semi else "")
-    cfg = dict(part="(a) moments + model structure", model=model, Dx=Dx, Dk=Dk, Dy=Dy, concrete_blocks=list(semi))
+def feature_moments_case(model, Dx, Dk, Dy, semi=(), timeout=900, Rx=1):
+    cid = f"C16/moments/{model}/Dx{Dx}Dk{Dk}Dy{Dy}" + (f"/Rx{Rx}" if Rx > 1 else "") + ("/semi-" + "-".join(semi) if semi else "")
+    cfg = dict(part="(a) moments + model structure", model=model, Dx=Dx, Dk=Dk, Dy=Dy, R_x=Rx, concrete_blocks=list(semi))
 
     def declare(b):
         declare_feature(b, model, Dx, Dk, Dy, semi)
         if "Sx" in semi:
-            b.const("Sx", b.rat_spd(1, Dx))
+            b.const("Sx", b.rat_spd(Rx, Dx))
         else:
-            b.spd("Sx", 1, Dx)
-        b.free("mx", (1, Dx)); b.free("x", (2, Dx))
+            b.spd("Sx", Rx, Dx)
+        b.free("mx", (Rx, Dx)); b.free("x", (2, Dx))
 
     def fn(**A):
         factor, measure, pdf, conditional = gt()
@@ -66,8 +66,14 @@ def feature_moments_case(model, Dx, Dk, Dy, semi=(), timeout=900):
 
     def claims(I, O, ops):
         Mx = I["M"][0][:, :Dx]; Mk = I["M"][0][:, Dx:]; bb = I["bv"][0]; Sg = I["S"][0]
-        m, S = I["mx"][0], I["Sx"][0]
         kq = kernel_quadratics(ops, model, I, Dx, Dk)
+        cl = []
+        for r in range(Rx):
+            cl += _moment_claims(I, O, ops, r, Mx, Mk, bb, Sg, kq)
+        return cl + _structure_claims(I, O, ops, Mx, Mk, bb, Sg, kq)
+
+    def _moment_claims(I, O, ops, r, Mx, Mk, bb, Sg, kq):
+        m, S = I["mx"][r], I["Sx"][r]
         mom = spec.Moments(ops, m, S)
         # affine part of mu(x): l_i(x) = (Mx x)_i + b_i
         lin = [spec.p_affine(ops, Mx[i], bb[i]) for i in range(Dy)]
@@ -101,8 +107,11 @@ def feature_moments_case(model, Dx, Dk, Dy, semi=(), timeout=900):
         for i in range(Dy):
             for j in range(Dy):
                 cov[i, j] = Sg[i, j] + Emm[i, j] - Emu[i] * Emu[j]
-        cl = [("E[y] under p(y|x)p(x)", O["mu_y"][0], Emu), ("Cov[y] under p(y|x)p(x)", O["Sigma_y"][0], cov),
-              ("E[y x'] under p(y|x)p(x)", O["Eyx"][0], Eyx)]
+        return [(f"E[y] under p(y|x)p(x) [prior {r}]", O["mu_y"][r], Emu), (f"Cov[y] under p(y|x)p(x) [prior {r}]", O["Sigma_y"][r], cov),
+                (f"E[y x'] under p(y|x)p(x) [prior {r}]", O["Eyx"][r], Eyx)]
+
+    def _structure_claims(I, O, ops, Mx, Mk, bb, Sg, kq):
+        cl = []
         # structure of the model the object itself returns when conditioned on x
         x = I["x"]
         em = ops.zeros((2, Dy))
@@ -292,6 +301,7 @@ def cases(tier, seed=0):
         out.append(feature_moments_case(model, 1, 1, 1))
         out.append(feature_moments_case(model, 1, 2, 1))
         out.append(feature_moments_case(model, 1, 1, 2))
+        out.append(feature_moments_case(model, 1, 2, 1, Rx=2))     # batch of priors x several kernels: (prior, kernel) layouts
         if tier == "thorough":
             out.append(feature_moments_case(model, 1, 2, 2, timeout=3000))
             out.append(feature_moments_case(model, 2, 1, 1, semi=("Sx",), timeout=3000))
